@@ -13,6 +13,7 @@ package main
 
 import (
 	"fmt"
+	"os"
 	"regexp"
 	"runtime"
 	"strconv"
@@ -58,6 +59,7 @@ type SStep struct {
 	Tid    int       `json:"tid"`
 	Status []int     `json:"status"` // 0 not started, 1 parked, 2 blocked in a mutex, 3 finished
 	Locks  []LockObs `json:"locks"`
+	Dbg    string    `json:"dbg,omitempty"`
 }
 
 type worker struct {
@@ -80,6 +82,7 @@ type controller struct {
 	steps   []SStep
 	hung    bool
 	timeout time.Duration
+	lastDump string
 }
 
 var goidRe = regexp.MustCompile(`^goroutine (\d+) \[`)
@@ -221,12 +224,16 @@ func (c *controller) inert() (bool, []int) {
 		}
 	}
 	states := map[int64]string{}
+	c.lastDump = ""
 	if need {
 		buf := make([]byte, 1<<16)
 		n := runtime.Stack(buf, true)
 		for n == len(buf) && len(buf) < 1<<24 {
 			buf = make([]byte, 4*len(buf))
 			n = runtime.Stack(buf, true)
+		}
+		if os.Getenv("VERIF_C10_DEBUG") != "" {
+			c.lastDump = string(buf[:n])
 		}
 		for _, m := range gStateRe.FindAllSubmatch(buf[:n], -1) {
 			id, _ := strconv.ParseInt(string(m[1]), 10, 64)
@@ -245,7 +252,9 @@ func (c *controller) inert() (bool, []int) {
 		default:
 			s := states[goids[i]]
 			switch s {
-			case "sync.RWMutex.RLock", "sync.RWMutex.Lock", "sync.Mutex.Lock", "semacquire":
+			case "sync.RWMutex.RLock", "sync.RWMutex.Lock", "sync.Mutex.Lock":
+				// (the generic reason "semacquire" is NOT a mutex: the runtime parks
+				// goroutines there during GC start, e.g. inside an allocation)
 				st[i] = 2
 			default:
 				return false, nil
@@ -350,7 +359,7 @@ func (c *controller) advance(i int) bool {
 	for _, l := range c.tree.VerifLockSnapshot() {
 		locks = append(locks, LockObs{P: l.Path, C: l.Class})
 	}
-	c.steps = append(c.steps, SStep{Tid: i, Status: st, Locks: locks})
+	c.steps = append(c.steps, SStep{Tid: i, Status: st, Locks: locks, Dbg: c.lastDump})
 	return true
 }
 
